@@ -422,9 +422,9 @@ fn parse_matched_braces_or_ending_semi(input: ParseStream) -> syn::Result<TokenS
         while let Some((tt, next)) = rest.token_tree() {
             match &tt {
                 TokenTree::Group(group) => {
-                    let is_brace = ends_with_brace_group(group);
+                    let is_end = ends_item(group);
                     tokens.extend(std::iter::once(tt));
-                    if is_brace {
+                    if is_end {
                         return Ok((tokens, next));
                     }
                 }
@@ -455,13 +455,14 @@ fn parse_matched_braces_or_ending_semi(input: ParseStream) -> syn::Result<TokenS
     Ok(tokens)
 }
 
-/// A `{ .. }` group, or an invisible group that ends in one:
-/// that is how a `$body:block` fragment arrives when the item was generated by `macro_rules!`.
-fn ends_with_brace_group(group: &proc_macro2::Group) -> bool {
+/// A `{ .. }` group, or an invisible group that ends in one or in a `;`: that is how a `$body:block`
+/// fragment (or a whole `$item:item`, like `use foo;`) arrives when the item was generated by `macro_rules!`.
+fn ends_item(group: &proc_macro2::Group) -> bool {
     match group.delimiter() {
         proc_macro2::Delimiter::Brace => true,
         proc_macro2::Delimiter::None => match group.stream().into_iter().last() {
-            Some(proc_macro2::TokenTree::Group(last)) => ends_with_brace_group(&last),
+            Some(proc_macro2::TokenTree::Group(last)) => ends_item(&last),
+            Some(proc_macro2::TokenTree::Punct(punct)) => punct.as_char() == ';',
             _ => false,
         },
         _ => false,
